@@ -13,6 +13,7 @@ import (
 	"fmt"
 	"hash"
 	"regexp"
+	"runtime"
 	"runtime/debug"
 	"sort"
 	"strconv"
@@ -89,6 +90,7 @@ type Sim struct {
 	tasks   []*Task
 	live    int
 	current string
+	gnode   map[uint64]string
 
 	strat strategy
 
@@ -113,6 +115,7 @@ func New(t *tape.Tape) *Sim {
 		wake:            make(chan struct{}, 1),
 		MaxSteps:        400000,
 		Counters:        map[string]int64{},
+		gnode:           map[uint64]string{},
 		StopOnViolation: true,
 		TraceMax:        4000,
 	}
@@ -140,6 +143,50 @@ func (s *Sim) Current() string {
 	s.mu.Lock()
 	defer s.mu.Unlock()
 	return s.current
+}
+
+// goid returns the current goroutine's id (parsed from the stack header).
+func goid() uint64 {
+	var buf [40]byte
+	n := runtime.Stack(buf[:], false)
+	// "goroutine 123 ["
+	var id uint64
+	for _, c := range buf[10:n] {
+		if c < '0' || c > '9' {
+			break
+		}
+		id = id*10 + uint64(c-'0')
+	}
+	return id
+}
+
+// EntropyNode names the node on whose behalf the calling goroutine acts.
+// Goroutines started through Go (or registered with Adopt) are known by id,
+// so the answer does not depend on what the scheduler is doing when a
+// goroutine wakes from a timer by itself; unknown goroutines fall back to
+// the node of the last scheduled event.
+func (s *Sim) EntropyNode() string {
+	g := goid()
+	s.mu.Lock()
+	defer s.mu.Unlock()
+	if n, ok := s.gnode[g]; ok {
+		return n
+	}
+	return s.current
+}
+
+// Adopt registers the calling goroutine as belonging to node until the
+// returned function is called.
+func (s *Sim) Adopt(node string) func() {
+	g := goid()
+	s.mu.Lock()
+	s.gnode[g] = node
+	s.mu.Unlock()
+	return func() {
+		s.mu.Lock()
+		delete(s.gnode, g)
+		s.mu.Unlock()
+	}
 }
 
 func (s *Sim) Notify() {
@@ -171,6 +218,7 @@ func (s *Sim) Go(name string, f func()) *Task {
 	s.mu.Unlock()
 	node := NodeOf(name)
 	go func() {
+		defer s.Adopt(node)()
 		defer func() {
 			if r := recover(); r != nil {
 				if s.Recover == nil || !s.Recover(name, r) {
